@@ -628,7 +628,7 @@ class Interp:
             if h is not NotImplemented:
                 return h
         if isinstance(a, (int, float, Fraction)) and isinstance(b, (int, float, Fraction)) and not isinstance(a, bool) \
-                and not isinstance(b, bool) and (isinstance(a, (float, Fraction)) or isinstance(b, (float, Fraction))):
+                and not isinstance(b, bool) and (isinstance(a, (float, Fraction)) or isinstance(b, (float, Fraction)) or op == '/'):
             # A-REAL: a float literal denotes the real number written in the source; concrete float arithmetic is exact
             fa, fb = V.exact(a), V.exact(b)
             try:
@@ -656,6 +656,17 @@ class Interp:
             return V.elementwise(self.ctx, f, a2, b2, dtype='real' if op == '/' else None, line=line)
         if isinstance(a, (list, tuple)) and isinstance(b, (list, tuple)) and op == '+':
             return a + b
+        if isinstance(a, list) and isinstance(b, SSeq) and op == '+':
+            na, bf, pre = len(a), b.fn, list(a)
+
+            def cat(j):
+                if not is_sym(j):
+                    return pre[j] if j < na else bf(j - na)
+                out = bf(binop('-', j, na))
+                for q in range(na - 1, -1, -1):
+                    out = z_ite(cmpop('==', j, q), pre[q], out)
+                return out
+            return SSeq(binop('+', na, b.length), cat)
         if isinstance(a, (list, tuple)) and op == '*' and isinstance(b, int):
             return a * b
         if isinstance(a, str) and op == '+':
@@ -795,6 +806,8 @@ class Interp:
         if isinstance(base, SOpt):
             base = base.payload
         if isinstance(base, LibRef):
+            if attr == 'pi' and base.dotted in ('np', 'numpy', 'math'):
+                return self.unit.pi(self.ctx)
             return LibRef(base.dotted + '.' + attr)
         if isinstance(base, STensor):
             return self.unit.np.tensor_attr(self, base, attr, line)
@@ -958,8 +971,26 @@ class Interp:
             raise Unsupported('filtered comprehension over symbolic-length iterable')
         interp = self
         cache = []  # (index term, object): list elements are objects with identity (frames may be mutated in place later)
+        # obligations of the element expression are generated once, for a Skolem index in range; later (lazy) evaluations of
+        # the element at other index terms do not emit obligations again
+        ctx = self.ctx
+        k0 = ctx.fresh_int('comp_k')
+        nh = len(ctx.hyps)
+        ctx.hyps.append(z3.And(k0 >= 0, to_z3(cmpop('<', k0, it.length))))
+        if ctx.feasible():
+            e0 = Env(env)
+            self.assign(g.target, it.item(k0), e0)
+            self.eval(node.elt, e0)
+        del ctx.hyps[nh]
 
         def item(k):
+            ctx.suppress_obligations = getattr(ctx, 'suppress_obligations', 0) + 1
+            try:
+                return item_inner(k)
+            finally:
+                ctx.suppress_obligations -= 1
+
+        def item_inner(k):
             kz = to_z3(k)
             for key, obj in cache:
                 if kz.eq(key):
@@ -1241,8 +1272,12 @@ class Interp:
         if name in ('ValueError', 'IndexError', 'KeyError', 'AttributeError', 'Exception', 'NotImplementedError',
                     'IOError', 'TypeError'):
             return SObj('exception', type=name)
-        if name == 'round' and is_concrete(args):
-            return round(*args)
+        if name == 'round':
+            if is_concrete(args):
+                return round(*args)
+            if len(args) == 1:
+                r = self.unit.np.f_around(self, line, a0)
+                return z3.ToInt(r) if is_sym(r) else r
         if name == 'type':
             return SObj('type', of=a0)
         raise Unsupported(f'builtin {name}')
